@@ -49,10 +49,9 @@ ORACLES = {
 ASSUMPTIONS = ["recursion limit, OS path limits and memory are runtime behaviour outside the models",
                "the writers (HTML/LaTeX translators) are outside the statement: the Sphinx cases run the read phase and the post-transforms"]
 LEVEL_TEXT = ("Proof (Coq) over tables regenerated from the source on every run: every call site of a raising callee in the "
-              "package is out of scope, whitelisted with a justification, a listed open defect, or checked - each class of "
+              "package is out of scope, whitelisted with a justification, or checked - each class of "
               "raises(callee) is caught by an enclosing handler or declared to escape to call sites that are themselves checked "
-              "(C01_sites_covered_partial, C01_site_check_sound, C01_raise_statements_declared, C01_tables_consistent; "
-              "C01_sites_covered_refuted exhibits the open sites); component totality in small models: max() in "
+              "(C01_sites_covered, C01_site_check_sound, C01_raise_statements_declared, C01_tables_consistent); component totality in small models: max() in "
               "update_section_level_state is never over an empty set, and {include}/substitution re-entrancy is bounded by the "
               "number of distinct keys (C01_core_total, with the two refutations of the unguarded variants). Tie: the "
               "regenerated tables plus fault-injection correspondence against the implementation.")
@@ -291,8 +290,18 @@ class Injector:
 
     def patch_attr(self, obj, name, depth=1):
         orig = getattr(obj, name)
-        setattr(obj, name, self.wrapper(orig, depth))
-        self.undo.append(lambda: setattr(obj, name, orig))
+        raw = obj.__dict__.get(name) if isinstance(obj, type) else None   # keeps staticmethod / classmethod wrappers
+        own = (not isinstance(obj, type)) or name in obj.__dict__
+        w = self.wrapper(orig, depth)
+        if isinstance(raw, staticmethod):
+            w = staticmethod(w)
+        setattr(obj, name, w)
+        if not own:
+            self.undo.append(lambda: delattr(obj, name))
+        elif raw is not None:
+            self.undo.append(lambda: setattr(obj, name, raw))
+        else:
+            self.undo.append(lambda: setattr(obj, name, orig))
 
     def patch_global(self, module, name):
         import builtins
@@ -647,6 +656,11 @@ def fixed_cases():
         {"fe": "docutils", "text": "---\nmyst:\n  substitutions: {a: ''}\n---\n:{{a}}: x\n", "settings": {"myst_enable_extensions": ["fieldlist", "substitution"]}},
         {"fe": "sphinx", "text": ":::{productionlist}\n:\n:::\n", "settings": {"myst_enable_extensions": ["colon_fence"]}},
         {"fe": "docutils", "text": "```{target-notes}\n:name: a\n```\n", "settings": {}},
+        {"fe": "docutils", "text": "> :::\n>", "settings": {"myst_enable_extensions": ["colon_fence"]}},
+        {"fe": "sphinx", "text": "> :::\n>", "settings": {"myst_enable_extensions": ["colon_fence"]}},
+        {"fe": "docutils", "text": "```{raw} latex\n:url: ? x\n```\n", "settings": {}},
+        {"fe": "sphinx", "text": "{.c}\n> [r]: u\n", "settings": {"myst_enable_extensions": ["attrs_block"]}},
+        {"fe": "docutils", "text": "```{line-block}\n\n\nx\n```\n", "settings": {}},
         {"fe": "docutils", "text": "[a](inv://[#x)\n", "settings": {}},
         {"fe": "docutils", "text": "[a](http://[::1)\n", "settings": {"myst_url_schemes": {"http": {"url": "x{{path}}"}}}},
         {"fe": "docutils", "text": "---\nmyst:\n  url_schemes: {http: {url: 'x{{path}}'}}\n---\n<http://[::1>\n", "settings": {}},
@@ -708,8 +722,8 @@ def _search(ctx):
                           "files": dict(extra.get("files", {})), "name": "index.md"})
     n_fixed = len(cases)
     rng = ctx.rng
-    n_doc = ctx.budget(8000, 150000, 60000)
-    n_sph = ctx.budget(600, 15000, 4000)
+    n_doc = ctx.budget(8000, 90000, 40000)
+    n_sph = ctx.budget(600, 8000, 3000)
     for _ in range(n_doc):
         cases.append(G.gen_case(rng, "docutils", HAVE_LINKIFY))
     for _ in range(n_sph):
